@@ -1,4 +1,4 @@
-(* model-side driver for C06: per line "id instant(E|M|P) shares(1|0) <shape in prefix form>";
+(* model-side driver for C06: per line "id instant(E|M|P) config <shape in prefix form>";
    prints id \t complete states results stuck maxsteps   (results: comma-separated nil/ctx/ctxtext/waiterr/nilhalt) *)
 open Vmconc_model
 
@@ -39,9 +39,11 @@ let () =
     pos := 0;
     let id = next () in
     let inst = (match next () with "E" -> IEarly | "M" -> IMarked | "P" -> IMainParked | t -> failwith ("bad instant " ^ t)) in
-    let shares = (next () = "1") in
+    let k = (match next () with
+      | "current" -> k_current | "noclone" -> k_noclone | "textual" -> k_textual
+      | "tryrecovers" -> k_tryrecovers | "wakesilent" -> k_wakesilent | t -> failwith ("bad config " ^ t)) in
     let s = shape () in
-    let v = analyse shares inst s in
+    let v = analyse k inst s in
     Printf.printf "%s\t%b\t%d\t%s\t%b\t%d\n" id v.v_complete (int_of_nat v.v_states)
       (String.concat "," (List.map tres v.v_results)) v.v_stuck (int_of_nat v.v_live_after_flag)
   done with End_of_file -> ()
